@@ -2,6 +2,7 @@
 // load/store, batch_bool_cast, conversion to 0/1 batches, select.  Every Boolean operation is run
 // on masks of five provenances and observed five ways (depth-2 chaining, DESIGN.md C03).
 #include "xv_harness.hpp"
+#include "xv_twin.hpp"
 
 #include <complex>
 
@@ -22,6 +23,9 @@ namespace xv
     template <> struct twin<uint64_t> { using type = int64_t; };
     template <> struct twin<float> { using type = uint32_t; };
     template <> struct twin<double> { using type = uint64_t; };
+    template <> struct twin<char> { using type = uint8_t; };
+    template <> struct twin<long long> { using type = double; };
+    template <> struct twin<unsigned long long> { using type = long long; };
 
     // ---- provenances ----
     struct P_load
@@ -417,6 +421,37 @@ namespace xv
         (reg_cmps<T>(), ...);
     }
 
-    void register_ops() { reg_all(all_types {}); }
+    // twin element types (xv_twin.hpp): the six comparisons, select and one mask of each provenance
+    template <class T>
+    void reg_twin()
+    {
+        reg_cmpq<c_eq, Q_store, T>("eq.twin");
+        reg_cmpq<c_ne, Q_store, T>("ne.twin");
+        reg_cmpq<c_lt, Q_store, T>("lt.twin");
+        reg_cmpq<c_le, Q_store, T>("le.twin");
+        reg_cmpq<c_gt, Q_store, T>("gt.twin");
+        reg_cmpq<c_ge, Q_store, T>("ge.twin");
+        reg_cmpq<c_lt_fn, Q_mask, T>("lt.fn.twin");
+        reg_cmpq<c_ge, Q_num, T>("ge.num.twin");
+        reg_cmpq<c_eq_rs, Q_store, T>("eq.rs.twin");
+        reg_cmpq<c_gt_ls, Q_store, T>("gt.ls.twin");
+        reg<c_select, T, B<T>, BB<T>, B<T>, B<T>>("C03", "select.twin");
+        reg<c_select, T, B<T>, PV<T, P_cmp>, B<T>, B<T>>("C03", "select.cmp.twin");
+        reg<c_select_const, T, B<T>, B<T>, B<T>>("C03", "select_const.twin");
+        reg_m1_all<m_id, T>("bid.twin");
+        reg_m1<m_not, P_load, Q_store, T>("bnot.twin");
+        reg_m2<m_xor, P_mask, Q_mask, T>("bxor.twin");
+        reg_m2<m_and, P_load, Q_store, T>("band.twin");
+        reg_ms<m_count, scalar_of<uint32_t, T>, P_load, T>("bcount.twin");
+        reg_ms<m_maskval, scalar_of<uint64_t, T>, P_cmp, T>("bmask.twin");
+    }
+    template <class... T>
+    void reg_twins(types<T...>) { (reg_twin<T>(), ...); }
+
+    void register_ops()
+    {
+        reg_all(all_types {});
+        reg_twins(twin_types {});
+    }
 }
 XV_MODULE("cmp")
